@@ -379,6 +379,82 @@ def generate(flex, workdir):
     return '\n'.join(L) + '\n', {'messages': msgs, 'incr': consts['YY_START_STACK_INCR']}
 
 
+PROBE_C99 = ('%option emit="c99" stack noyywrap\n%x A\n%%\na yy_push_state(A, yyscanner);\n'
+             '<A>b yy_pop_state(yyscanner); (void) yy_top_state(yyscanner);\n%%\n')
+
+
+def normalise_c99(text):
+    """the c99 skeleton keeps the scanner state in *yyscanner and passes it around: drop that parameter and
+    the `yyscanner->` prefix, spell yypanic as YY_FATAL_ERROR — what is left has the shape of the default skeleton"""
+    text = re.sub(r'\byyscanner\s*->\s*', '', text)
+    text = re.sub(r',\s*yyscanner\s*\)', ')', text)
+    text = re.sub(r'\(\s*yyscanner\s*\)', '()', text)
+    text = re.sub(r'\byypanic\s*\(', 'YY_FATAL_ERROR(', text)
+    return text
+
+
+def function_as_macro(text, name):
+    """a one-statement function `T name(params) { [return] e; }` as a macro (params, expression)"""
+    m = re.search(r'\n[^\n;{}()]*\b' + re.escape(name) + r'\s*\(([^)]*)\)\s*\{([^{}]*)\}', text)
+    if not m:
+        raise TranslateError('function %s not found' % name)
+    params = []
+    for prm in m.group(1).split(','):
+        w = prm.strip().split()
+        if w and w[-1] not in ('void', 'yyscanner') and not prm.strip().startswith('yyscan_t'):
+            params.append(w[-1].lstrip('*'))
+    body = m.group(2).strip()
+    body = re.sub(r'^return\b', '', body).strip().rstrip(';')
+    return params, P(tokenize(body)).expr()
+
+
+def generate_c99(flex, workdir):
+    lf = os.path.join(workdir, 'startstack_probe99.l')
+    cf = os.path.join(workdir, 'startstack_probe99.c')
+    open(lf, 'w').write(PROBE_C99)
+    p = subprocess.run([flex, '-L', '-o', cf, lf], stdout=subprocess.PIPE, stderr=subprocess.PIPE, text=True)
+    if p.returncode != 0:
+        raise TranslateError('flex failed on the c99 probe: ' + p.stderr[-200:])
+    text = normalise_c99(open(cf, errors='replace').read())
+    macros = {'yybegin': function_as_macro(text, 'yybegin'), 'yystart': function_as_macro(text, 'yystart')}
+    consts = {}
+    m = re.search(r'^#define YY_START_STACK_INCR\s+(\d+)', text, re.M) or re.search(r'YY_START_STACK_INCR\s*=\s*(\d+)', text)
+    if not m:
+        raise TranslateError('YY_START_STACK_INCR not found (c99)')
+    consts['YY_START_STACK_INCR'] = int(m.group(1))
+    consts['NULL'] = 0
+    msgs = []
+    tr = Tr(macros, consts, msgs)
+    progs = {}
+    for fn in ('yy_push_state', 'yy_pop_state', 'yy_top_state'):
+        progs[fn] = tr.st(P(tokenize(body_of(text, fn))).stmt())
+    m = re.search(r'if \( *yy_start *== *0 *\) *\{\s*yy_start = (\d+);', text) or re.search(r'if \( ! \(?yy_start\)? \) \{\s*\(?yy_start\)? = (\d+);', text)
+    if not m:
+        raise TranslateError('initialisation of yy_start in yylex not found (c99)')
+    progs['lex_init'] = tr.st(P(tokenize('if ( ! (yy_start) ) { (yy_start) = %s; }' % m.group(1))).stmt())
+    progs['yybegin'] = tr.st(('expr', ('call', 'yybegin', [('id', '_new_state')])))
+    pe, ye, qe = tr.ex(('call', 'yystart', []))
+    q = lambda s: '"' + s.replace('\\', '\\\\').replace('"', '\\"') + '"'
+    L = ['-- GENERATED by tools/fv/gen_startstack.py from a c99 scanner (%option emit="c99") flex has just generated.  Do not edit.',
+         'import FlexVerif.Imp.Lang',
+         'namespace FlexVerif.Gen.StartStackC99',
+         'open FlexVerif.Imp',
+         'def msgs : List String := [%s]' % ', '.join(q(m) for m in msgs),
+         'def push : St :=\n  ' + progs['yy_push_state'],
+         'def pop : St :=\n  ' + progs['yy_pop_state'],
+         'def top : St :=\n  ' + progs['yy_top_state'],
+         'def begin_ : St :=\n  ' + progs['yybegin'],
+         'def startEx : Ex :=\n  ' + ye,
+         'def lexInit : St :=\n  ' + progs['lex_init'],
+         'end FlexVerif.Gen.StartStackC99']
+    for f in (lf, cf):
+        try:
+            os.unlink(f)
+        except OSError:
+            pass
+    return '\n'.join(L) + '\n', {'messages': msgs}
+
+
 if __name__ == '__main__':
     import sys
     t, info = generate(sys.argv[1], sys.argv[2])
